@@ -547,6 +547,17 @@ pub fn record(mode: &str, seed: u64, n: usize, out: &mut Out) {
         }
         // C04 / C06: sessions (repeat until error) over streams with junk and malformed payloads
         "session" => {
+            {
+                // a whole-file buffer: well over one maximal message of stored messages, with a few bytes to skip in front
+                let mut stream: Vec<u8> = (0..1 + r.below(9)).map(|_| *r.pick(&[b'x', 0u8, b'D', 0xFF])).collect();
+                while stream.len() < 90_000 {
+                    stream.extend(gen::ser(&gen::message(&mut r, &MsgOpts { storage: Some(true), big: 8, max_args: 1 })));
+                }
+                out.calls += 2;
+                out.emit(frame_event(&stream, None, true, "parse"), true);
+                let cfg = random_filter(&mut r, None);
+                out.emit(frame_event(&stream, Some(&cfg), true, "parse"), true);
+            }
             for _ in 0..n {
                 let sh = r.below(4) != 0;
                 let nm = 1 + r.below(4) as usize;
@@ -614,6 +625,16 @@ pub fn record(mode: &str, seed: u64, n: usize, out: &mut Out) {
                 let data = exact_payload(&mut r, &types, be);
                 out.calls += 1;
                 out.emit(construct_event(be, &types, &data), nt > 0);
+                if out.events % 307 == 29 {
+                    // more signal types than a NOAR byte can count (the function has no such limit)
+                    for nt in [255usize, 256, 257, 300] {
+                        let ts: Vec<TypeInfo> = (0..nt).map(|k| TypeInfo { kind: if k % 2 == 0 { TypeInfoKind::Unsigned(TypeLength::BitLength8) } else { TypeInfoKind::Bool }, coding: StringCoding::ASCII, has_variable_info: false, has_trace_info: false }).collect();
+                        let d: Vec<u8> = (0..nt).map(|k| k as u8).collect();
+                        out.calls += 2;
+                        out.emit(construct_event(be, &ts, &d), true);
+                        out.emit(construct_event(be, &ts, &d[..nt - 1]), true);
+                    }
+                }
                 if out.events % 211 == 17 {
                     // string / raw fields around 32 KiB and at the 16-bit limit, each followed by another field
                     for len in [0x7FFFusize, 0x8000, 0x8001, 0xFFFF] {
@@ -679,13 +700,21 @@ pub fn record(mode: &str, seed: u64, n: usize, out: &mut Out) {
                         e["op"] = json!("idcut");
                         out.emit(e, true);
                     }
-                    out.calls += 2;
-                    let mut e1 = parse_event(&m, None, false);
+                    out.calls += 4;
+                    // with and without a filter that lets everything pass (the ids of the message returned are those of the bytes)
+                    let pass_all = DltFilterConfig { min_log_level: None, app_ids: None, ecu_ids: None, context_ids: None, app_id_count: 0, context_id_count: 0 };
+                    let mut e1 = parse_event(&m, if i % 8 == 0 { Some(&pass_all) } else { None }, false);
                     e1["op"] = json!("ids");
                     out.emit(e1, true);
-                    let mut e2 = parse_event(&s, None, true);
+                    let mut e2 = parse_event(&s, if i % 8 == 4 { Some(&pass_all) } else { None }, true);
                     e2["op"] = json!("ids");
                     out.emit(e2, true);
+                    // bytes skipped in front of the storage header
+                    let mut js = junk.clone();
+                    js.extend(&s);
+                    let mut e3 = parse_event(&js, None, true);
+                    e3["op"] = json!("ids");
+                    out.emit(e3, true);
                 }
             }
         }
